@@ -71,21 +71,78 @@ def ObeysRequires (cfg : Cfg) (us : List Use) : Prop :=
     us[p]? = some u → cfg.args[u.arg]? = some d → (CType.required, ks) ∈ d.constraints → k ∈ ks →
     ∃ (q : Nat) (w : Use), p < q ∧ us[q]? = some w ∧ w.ident = true ∧ Designates cfg k w.arg
 
+/-! ### the destinations in closed form (used by the value constraints, and by `dests_denote`) -/
+
+/-- the converted value (0 when it does not convert — never the case for an accepted value) -/
+def castOr0 (v : Word) : Int := match lexCastInt v with | .ok n => n | _ => 0
+
+/-- the converted elements of a list value -/
+def castAll (ts : List Word) : List Int := ts.map castOr0
+
+-- `vecOf` (content of a list destination) is defined in Handler.lean
+
+/-- level of a LevelCounter destination (0 for a destination of another type) -/
+def levelOf : DVal → Int
+  | .level n => n
+  | _ => 0
+
+/-- one use of a LevelCounter argument: without value increment, with value set -/
+def levelStep (cur : Int) (v : Word) : Int := if v.isEmpty then cur + 1 else castOr0 v
+
+/-- the values given to argument `i`, in order -/
+def valsOf (i : Nat) (us : List Use) : List Word := (us.filter (·.arg = i)).map (·.val)
+
+/-- **The destination of an argument as a function of its own uses** (`vals`: the values of the uses
+    of this argument, in command-line order; `init`: the destination's value before the evaluation).
+    Not used: unchanged.  Flag: the value to set.  Int / string: the last value given.  List: the
+    initial content followed by all elements of all uses in order.  LevelCounter: increments and
+    assignments applied in order. -/
+def denote (d : ArgDef) (init : DVal) (vals : List Word) : DVal :=
+  match vals.getLast? with
+  | none => init
+  | some last =>
+    match d.kind with
+    | .flag => .flag d.flagValue
+    | .int => .int (castOr0 last)
+    | .str => .str last
+    | .vecInt => .vec (vecOf init ++ vals.flatMap (fun v => castAll (splitSep d.sep v)))
+    | .level => .level (vals.foldl levelStep (levelOf init))
+
 /-- key occurrences of arguments listed in a handler constraint -/
 def listedUses (cfg : Cfg) (g : GDef) (us : List Use) : List Use :=
   us.filter (fun u => u.ident && match cfg.args[u.arg]? with
     | some d => isConstraintArgument g.keys d.key
     | none => false)
 
+/-- value constraint "differ": any two different listed arguments that were both given end up with
+    different values (the destinations in closed form: for an int / string argument the last value
+    given, converted) -/
+def DifferMet (cfg : Cfg) (inits : List DVal) (us : List Use) (keys : List Key) : Prop :=
+  ∀ (k1 k2 : Key) (i j : Nat) (di dj : ArgDef) (vi vj : DVal), k1 ∈ keys → k2 ∈ keys →
+    cfg.args[i]? = some di → cfg.args[j]? = some dj → k1.eq di.key = true → k2.eq dj.key = true → i ≠ j →
+    inits[i]? = some vi → inits[j]? = some vj → (∃ u ∈ us, u.arg = i) → (∃ u ∈ us, u.arg = j) →
+    denote di vi (valsOf i us) ≠ denote dj vj (valsOf j us)
+
+/-- value constraint "disjoint": the lists of any two different listed arguments — initial content
+    followed by all elements given — have no element in common -/
+def DisjointMet (cfg : Cfg) (inits : List DVal) (us : List Use) (keys : List Key) : Prop :=
+  ∀ (k1 k2 : Key) (i j : Nat) (di dj : ArgDef) (vi vj : DVal), k1 ∈ keys → k2 ∈ keys →
+    cfg.args[i]? = some di → cfg.args[j]? = some dj → k1.eq di.key = true → k2.eq dj.key = true → i ≠ j →
+    inits[i]? = some vi → inits[j]? = some vj →
+    ∀ x, x ∈ vecOf (denote di vi (valsOf i us)) → x ∉ vecOf (denote dj vj (valsOf j us))
+
 /-- rule "handler constraints": all-of — every listed argument is used; any-of — at most one key
     occurrence of a listed argument; one-of — exactly one (the code's reading: a second occurrence
-    even of the same listed argument is refused) -/
-def ObeysGlobals (cfg : Cfg) (us : List Use) : Prop :=
+    even of the same listed argument is refused); differ — pairwise different final values of the
+    listed arguments that were given; disjoint — no common element between the listed lists -/
+def ObeysGlobals (cfg : Cfg) (inits : List DVal) (us : List Use) : Prop :=
   ∀ g ∈ cfg.globals,
     match g.kind with
     | .allOf => ∀ k ∈ g.keys, ∃ u ∈ us, u.ident = true ∧ Designates cfg k u.arg
     | .anyOf => (listedUses cfg g us).length ≤ 1
     | .oneOf => (listedUses cfg g us).length = 1
+    | .differ => DifferMet cfg inits us g.keys
+    | .disjoint => DisjointMet cfg inits us g.keys
 
 /-- the declared rules, all together -/
 structure Obeys (cfg : Cfg) (inits : List DVal) (us : List Use) : Prop where
@@ -94,6 +151,6 @@ structure Obeys (cfg : Cfg) (inits : List DVal) (us : List Use) : Prop where
   cardinality : ObeysCardinality cfg us
   excludes    : ObeysExcludes cfg us
   requires    : ObeysRequires cfg us
-  globals     : ObeysGlobals cfg us
+  globals     : ObeysGlobals cfg inits us
 
 end CelmaVerif.ProgArgs
